@@ -147,7 +147,7 @@ pub open spec fn last_prim(s: Seq<StructureTag>, n: int, id: u64) -> Option<Seq<
             it.seq() == k, refs@.len() == it.index@,
             forall|j: int| #![trigger k[j]] #![trigger refs@[j]] 0 <= j < it.index@ ==> uri_ok(k[j], refs@[j]),
             t.payload matches PL::C(kv) && kv@ == k,
-//@ insert before "refs.push(String::from_utf8("
+//@ insert loop-start 1
         proof { assert(k[it.index@ as int] == uri); }
 //@ insert before "Some(refs)"
     proof { assert(strs(refs@) =~= uris_of(t)); }
